@@ -26,6 +26,13 @@ def models(text, extra_facts=""):
     ctl.ground([("base", [])])
     ms = []
     ctl.solve(on_model=lambda m: ms.append((tuple(sorted(map(str, m.symbols(shown=True)))), tuple(m.cost))))
+    # a priority level at which EVERY answer set costs 0 says nothing (':~ X = #sum{ : b(1)}. [X@1]'); a rewrite may drop
+    # such a statement, after which clingo reports one level less: compare without these levels
+    if ms:
+        width = max(len(c) for _a, c in ms)
+        if all(len(c) == width for _a, c in ms):
+            keep = [k for k in range(width) if any(c[k] != 0 for _a, c in ms)]
+            ms = [(a, tuple(c[k] for k in keep)) for a, c in ms]
     return sorted(ms)
 
 
